@@ -12,9 +12,10 @@ CONSTANTS
   MaxRect = 2
   BIds = "whole"
   Thrs = {3, 5}
+  TopNs = {0, 1, 2, 3}
   RecalcWeight = 1
   Rand = FALSE
-  Depth = 3
+  Depth = 2
 INIT Init
 NEXT Next
 INVARIANTS TypeOK OracleOK
